@@ -284,7 +284,22 @@ def policy_class(stag, etag):
     return _policy_classes[key]
 
 
+from common import ImplDefect  # noqa: E402
+
+
+POLICY_ATTRS = ('uid', 'effect', 'description', 'subjects', 'resources', 'actions', 'context', 'type')
+
+
 def build_policy(p):
+    obj = _build_policy(p)
+    missing = [a for a in POLICY_ATTRS if not hasattr(obj, a)]
+    if missing:
+        raise ImplDefect('a policy built by %s(...) has no attribute %s' % (type(obj).__name__, ', '.join(missing)),
+                         {'constructor': type(obj).__name__, 'policy': repr(p)})
+    return obj
+
+
+def _build_policy(p):
     cls = policy_class(p.get('stag', '<'), p.get('etag', '>'))
     if cls is Policy and p['effect'] in ('allow', 'deny') and (len(p['subjects']) + 2 * len(p['resources']) + len(repr(p['uid']))) % 4 == 0:
         # the convenience classes PolicyAllow / PolicyDeny fix the effect themselves (a quarter of the plain policies)
